@@ -128,6 +128,7 @@ fn main() {
                 sched: sup::Sched { kind, seed, change_points: vec![], parblock },
                 log_all: args.iter().any(|a| a == "--all"),
                 extra_env: vec![],
+                stdout_to: None,
             };
             let o = sup::Sup::run(spec);
             for e in &o.log {
